@@ -168,6 +168,17 @@ def witnesses(tier="quick", seed=0):
                 if nm in ("rename", "default"):
                     add("dup_vfield_%s_%s_%s" % (nm, place, "alt" if second != a else "eq"), "attribute given twice", "field",
                         item("tagged", [['tag = "t"']], fattrs=fa), item("tagged", [['tag = "t"']], fattrs=[[a]]))
+    # duplicates / conflicts spread over two attributes whose first one also carries unrelated flags
+    for flag in ("skip", "needs_predicate"):
+        for nm in ("rename", "default", "map", "error"):
+            a, b = FIELD_SINGLE[nm]
+            add("dup_field_%s_after_%s" % (nm, flag), "attribute given twice", "field",
+                item("struct", [["error = JsonError"]], fattrs=[[flag, a], [b]]), item("struct", [["error = JsonError"]], fattrs=[[flag, a]]))
+            add("dup_field_%s_before_%s" % (nm, flag), "attribute given twice", "field",
+                item("struct", [["error = JsonError"]], fattrs=[[a], [flag, b]]), item("struct", [["error = JsonError"]], fattrs=[[a], [flag]]))
+        add("from_tryfrom_field_after_%s" % flag, "from together with try_from", "field",
+            item("struct", [["error = JsonError"]], fattrs=[[flag, FIELD_SINGLE["from"][0]], [FIELD_SINGLE["try_from"][0]]]),
+            item("struct", [["error = JsonError"]], fattrs=[[flag, FIELD_SINGLE["from"][0]]]))
     # ---------------------------------------------------------------- from together with try_from
     cf, ct = CONTAINER_SINGLE["from"][0], CONTAINER_SINGLE["try_from"][0]
     for order in ((cf, ct), (ct, cf)):
